@@ -91,6 +91,18 @@ def run_impl(c):
         it2.load_state_dict(sd)
         rest = list(it2)
         nxt = list(iter(s2))
+        # a checkpoint taken from a RESUMED iterator, resumed again in a third, differently seeded sampler
+        it2b = iter(mk(seed + 4242))
+        it2b.load_state_dict(sd)
+        k2 = (total - k) // 2
+        mid = [next(it2b) for _ in range(k2)]
+        sd2 = it2b.state_dict()
+        s3 = mk(seed + 777)
+        it3 = iter(s3)
+        it3.load_state_dict(sd2)
+        rest3 = list(it3)
+        if mid + rest3 != e1[k:]:
+            fails.append(f"second resume (checkpoint of a resumed iterator, taken after {k2} more draws): got {mid + rest3}, expected {e1[k:]}")
         # the draws, replayed from an identically seeded generator, for the model
         g = torch.Generator()
         g.manual_seed(seed)
@@ -148,6 +160,16 @@ def run_impl(c):
         it2.load_state_dict(sd)
         rest = list(it2)
         nxt = list(iter(b2))
+        it2b = iter(mk(seed + 4242))
+        it2b.load_state_dict(sd)
+        j2 = (len(e1) - j) // 2
+        mid = [next(it2b) for _ in range(j2)]
+        sd2 = it2b.state_dict()
+        it3 = iter(mk(seed + 777))
+        it3.load_state_dict(sd2)
+        rest3 = list(it3)
+        if mid + rest3 != e1[j:]:
+            fails.append(f"second resume (checkpoint of a resumed iterator, taken after {j2} more batches): got {mid + rest3}, expected {e1[j:]}")
         flat = [x for bb in e1 for x in bb]
         if rest != e1[j:] or head != e1[:j]:
             fails.append(f"resume after {j} batches: got {rest}, expected {e1[j:]}")
